@@ -217,8 +217,13 @@ func (u *TesterConn) LocalAddr() (netip.AddrPort, error) {
 	return u.GetAddr(), nil
 }
 
+// TesterMultiReader lets a test harness run nebula with several reader routines on the test sockets: Main then
+// opens one TesterConn per routine and every one of them gets its own listenOut goroutine, as with SO_REUSEPORT
+// sockets. Off by default (the e2e tests feed a single socket).
+var TesterMultiReader atomic.Bool
+
 func (u *TesterConn) SupportsMultipleReaders() bool {
-	return false
+	return TesterMultiReader.Load()
 }
 
 func (u *TesterConn) Rebind() error {
